@@ -117,3 +117,16 @@ Print Assumptions C09_order_close_weight_sum.
 Theorem C09_error_size_four_plugins : (EA 3 <= / 1125899906842624)%R.
 Proof. exact EA3_small. Qed.
 Print Assumptions C09_error_size_four_plugins.
+
+(* the fan-out helper (resource/cobalt/call.go): GetNodesDeployCapacity waits for
+   every plugin; it either fails or aggregates over ALL of them - a result never
+   is a silent merge of the plugins that happened to have answered *)
+Theorem C09_no_partial_merge : forall (answers : list (option famap)) (r : famap * Z),
+  gndc_call answers = Some r -> exists l, answers = map Some l /\ r = gndc_f l.
+Proof. exact no_partial_merge. Qed.
+Print Assumptions C09_no_partial_merge.
+
+Theorem C09_any_error_is_error : forall answers : list (option famap),
+  In None answers -> gndc_call answers = None.
+Proof. exact any_error_is_error. Qed.
+Print Assumptions C09_any_error_is_error.
